@@ -43,6 +43,7 @@ class DataSampler(PointSampler):
         # TODO: Make more general. What happends when parameters have higher dimension?
         # What when multiple dimension in both that do not fit?
         start_time = time.time()
+        repeated_params = params
         if len(self.points.as_tensor.shape) > 2:
             repeated_tensor = params.as_tensor
             for i in range(1, len(self.points.as_tensor.shape)-1):
